@@ -623,6 +623,7 @@ func (d *drv) runFormats(g *gen, n int) map[string]any {
 			d.checkDoc(g, serverKind, stree, coqOfAny(&sc), coqOfAny(&scDone), i%4 == 1, st, levels, dir)
 		}
 	}
+	ini := d.runIni(g, n/4+10, dir)
 	fl := d.runFlags(g, n/2+6, dir)
 	tp := d.runTemplates(g, n/2+6)
 	out := map[string]any{}
@@ -631,6 +632,7 @@ func (d *drv) runFormats(g *gen, n int) map[string]any {
 	}
 	out["unknown_field_levels"] = levels
 	out["flags"] = fl
+	out["ini"] = ini
 	out["templates"] = tp
 	return out
 }
